@@ -16,13 +16,14 @@ def sh(cmd, cwd=None, env=None, timeout=1800):
 
 def main():
     prop = sys.argv[1]
-    wt = f"/tmp/wt-{prop}"
+    wt = sys.argv[2] if len(sys.argv) > 2 else f"/tmp/wt-{prop}"
+    suffix = sys.argv[3] if len(sys.argv) > 3 else ""
     env = dict(os.environ, PYTHONPATH=wt, PYTHONDONTWRITEBYTECODE="1")
     for X in sorted(os.listdir(os.path.join(wt, "SEEDED"))):
         d = os.path.join(wt, "SEEDED", X)
         if not os.path.exists(os.path.join(d, "patch.diff")):
             continue
-        sid = f"{prop}-{X}"
+        sid = f"{prop}-{X}{suffix}"
         sh(["git", "-C", wt, "checkout", "--", "openapi_python_client"])
         rc0, out0 = sh(["/venv/bin/python", os.path.join(d, "demo.py"), wt], cwd=d, env=env)
         rca, outa = sh(["git", "-C", wt, "apply", os.path.join(d, "patch.diff")])
